@@ -26,7 +26,7 @@ type c16dPlan struct {
 }
 
 var c16dVocabulary = []string{
-	"up", "down", "first", "last", "pos(3)", "pos(-1)", "page-up", "page-down", "half-page-down",
+	"up", "down", "first", "last", "pos(3)", "pos(-1)", "page-up", "page-down", "half-page-down", "next-selected", "prev-selected",
 	"toggle", "toggle+down", "toggle-in", "toggle-out", "select-all", "deselect-all", "toggle-all", "clear-selection", "select", "deselect",
 	"beginning-of-line", "end-of-line", "backward-char", "forward-char", "backward-word", "forward-word",
 	"delete-char", "backward-delete-char", "kill-line", "kill-word", "backward-kill-word", "unix-line-discard", "unix-word-rubout", "yank",
